@@ -122,6 +122,7 @@ Section Bounded.
       assert (E0 : N.eqb (l_id l) (l_id o) = true) by (apply N.eqb_eq; exact SameId). rewrite E0. cbn [negb].
       rewrite D, OK. cbn [negb].
       assert (E : size <? 0 = false) by (apply Z.ltb_ge; lia). rewrite E.
+      fold_j_ents l newitems. rewrite (own_heads_o U l o UO Il Io SameId newitems D).
       change (values _) with (values full). rewrite V. fold tmp. reflexivity.
     - cbn zeta. cbn [l_entries l_heads]. rewrite <- Htmp. split; [|split; [|split]].
       + intros k v. now apply from_entries_iff.
@@ -157,6 +158,7 @@ Section Bounded.
       assert (E0 : N.eqb (l_id l) (l_id o) = true) by (apply N.eqb_eq; exact SameId). rewrite E0. cbn [negb].
       rewrite D, OK. cbn [negb].
       assert (E : size <? 0 = false) by (apply Z.ltb_ge; lia). rewrite E.
+      fold_j_ents l newitems. rewrite (own_heads_o U l o UO Il Io SameId newitems D).
       change (values _) with (values full). rewrite V. fold tmp. reflexivity.
     - cbn zeta. cbn [l_next]. rewrite <- Htmp. intros n. rewrite next_index_keys. cbn. tauto.
   Qed.
